@@ -141,7 +141,18 @@ def candleAdd (inToks r1 r2 r3 : List String) : Option String :=
       firstSome [numOk c (toks.getD 0 "") k.open_ 0, numOk c (toks.getD 1 "") k.high 0, numOk c (toks.getD 2 "") k.low 0,
         numOk c (toks.getD 3 "") k.close 0, numOk c (toks.getD 4 "") k.volume (8 * c.eps * ratAbs k.volume)] |>.map (what ++ ": " ++ ·)
     firstSome [chk r1 ab "a+b", chk r2 l "(a+b)+c", chk r3 r "a+(b+c)"]
-  | _, _, _ => some "unparsable add line"
+  | _, _, _ =>
+    -- a non-finite field somewhere: no rational model; associativity itself is still decidable on the results
+    -- (prices bit for bit — they are selections — with every NaN counted as the same value; volume, a floating-point sum,
+    -- only when both groupings are finite)
+    let isNaN (t : String) : Bool := (parseRat t).isNone && !(t == "f7ff0000000000000" || t == "ffff0000000000000")
+    let same (x y : String) : Bool := x == y || (isNaN x && isNaN y)
+    if r2.length < 5 || r3.length < 5 then some "unparsable add line"
+    else if !((List.range 4).all fun i => same (r2.getD i "") (r3.getD i "")) then
+      some s!"(a+b)+c and a+(b+c) differ in a price field: {unwords (r2.take 4)} vs {unwords (r3.take 4)}"
+    else match parseRat (r2.getD 4 ""), parseRat (r3.getD 4 "") with
+      | some x, some y => if ratAbs (x - y) ≤ 16 * c.eps * (ratAbs x + ratAbs y) then none else some "volume of the two groupings differs"
+      | _, _ => none
 
 def candleText (P : Nat) (op res : List String) : Option String :=
   match op with
